@@ -17,8 +17,13 @@ def _ep_kwargs(cfg, world, name, scripts, handler_holder):
 
     kw = dict(handler_factory=factory,
               fragment_size_bytes=cfg.get('fragment'),
+              honor_lease=bool(cfg.get('honor_lease')),
+              request_queue_size=cfg.get('request_queue_size', 0),
               keep_alive_period=timedelta(milliseconds=cfg.get('keepalive_ms', 1_000_000)),
               max_lifetime_period=timedelta(milliseconds=cfg.get('lifetime_ms', 10_000_000)))
+    if cfg.get('lease_script') is not None:
+        from .exec_peer import _make_lease_publisher
+        kw['lease_publisher'] = _make_lease_publisher(world, cfg['lease_script'])
     return kw
 
 
